@@ -24,7 +24,7 @@ PROFILES = ['dev']
 REPLAY_PROFILES = ['dev', 'release']
 BUDGET = 150
 FIRST_BUDGET = 300
-TIME_LIMIT = {'quick': 420, 'thorough': 3300}
+TIME_LIMIT = {'quick': 900, 'thorough': 3300}
 PREFIX_VALUES = sorted(set(U.PREFIXES.values()))
 FEW_PREFIXES = [-3, 0, 6]
 SWEEP_UNITS = ['Meter', 'KiloGram', 'Second', 'length::FOOT', 'volume::LITRE', 'units::NEWTON', 'energy::ELECTRONVOLT']
